@@ -12,7 +12,7 @@
    key@version twice (managed mode; the duplicate-version class of finding F8).  The `_partial`
    theorems hold under the narrowest hypothesis that excludes it. *)
 From Verif Require Import Bytes Keys Consts Spec Lsm Compact Iter Sys SysReopen.
-From Verif Require ReopenReadProofs ReopenTsProofs.
+From Verif Require ReopenReadProofs ReopenTsProofs ReopenMergeProofs LevelsWfProofs EntOrderProofs.
 Open Scope N_scope.
 
 (* Close: rotating the active memtable and flushing every immutable memtable to level 0 changes
@@ -37,22 +37,39 @@ Example C07_reopen_preserves_reads_partial_ex :
   ReopenReadProofs.l0_distinct (ReopenReadProofs.closed_l0 ReopenReadProofs.ex_db1 [6]).
 Proof. exact ReopenReadProofs.ex_db1_distinct. Qed.
 
+(* Close + Open, iterator view, for every L0 order: all sources strictly sorted (the C14
+   invariant db_ok, see C14_invariant_step) and no key@version twice in level 0 *)
+Theorem C07_reopen_preserves_merged_partial : forall d ids,
+  LevelsWfProofs.db_ok d -> ReopenMergeProofs.l0_nodup (ReopenReadProofs.closed_l0 d ids) ->
+  merged (reopen_db d ids) = merged d.
+Proof. exact ReopenMergeProofs.reopen_preserves_merged. Qed.
+Print Assumptions C07_reopen_preserves_merged_partial.
+Example C07_reopen_preserves_merged_partial_ex :
+  LevelsWfProofs.db_ok ReopenReadProofs.ex_db1 /\
+  ReopenMergeProofs.l0_nodup (ReopenReadProofs.closed_l0 ReopenReadProofs.ex_db1 [6]).
+Proof. exact ReopenMergeProofs.ex_db1_ok. Qed.
+
+(* the merged view does not depend on the order of strictly sorted sources sharing no key@version *)
+Theorem C07_merge_order_irrelevant : forall z ss ss',
+  Permutation.Permutation ss ss' -> EntOrderProofs.ssorted z -> Forall EntOrderProofs.ssorted ss ->
+  ReopenMergeProofs.srcs_nodup ss -> fold_right merge2 z ss = fold_right merge2 z ss'.
+Proof. exact ReopenMergeProofs.fold_merge_perm. Qed.
+Print Assumptions C07_merge_order_irrelevant.
+
 (* Close + Open when level 0 is in file-id order (no L0->L0 compaction since the last Open):
-   nothing at all changes, for lookups and for the iterator view.
-   (`_partial`: the missing lemma for an arbitrary L0 order is that merge2 commutes on strictly
-   sorted sources that share no key@version.) *)
+   nothing at all changes, for lookups and for the iterator view, with no other hypothesis *)
 Theorem C07_reopen_preserves_reads_sorted_l0 : forall d ids k ts,
   sort_by_id (ReopenReadProofs.closed_l0 d ids) = ReopenReadProofs.closed_l0 d ids ->
   db_get (reopen_db d ids) k ts = db_get d k ts.
 Proof. exact ReopenReadProofs.reopen_preserves_get_sorted_l0. Qed.
 Print Assumptions C07_reopen_preserves_reads_sorted_l0.
 
-Theorem C07_reopen_preserves_merged_partial : forall d ids,
+Theorem C07_reopen_preserves_merged_sorted_l0 : forall d ids,
   sort_by_id (ReopenReadProofs.closed_l0 d ids) = ReopenReadProofs.closed_l0 d ids ->
   merged (reopen_db d ids) = merged d.
 Proof. exact ReopenReadProofs.reopen_preserves_merged_sorted_l0. Qed.
-Print Assumptions C07_reopen_preserves_merged_partial.
-Example C07_reopen_preserves_merged_partial_ex :
+Print Assumptions C07_reopen_preserves_merged_sorted_l0.
+Example C07_reopen_preserves_merged_sorted_l0_ex :
   let d := mkLsm [mkE [1] 7 0 0 0 [9]] [] [[mkT 2 [mkE [1] 3 0 0 0 [8]]; mkT 5 [mkE [1] 4 0 0 0 [7]]]; []] in
   sort_by_id (ReopenReadProofs.closed_l0 d [6]) = ReopenReadProofs.closed_l0 d [6].
 Proof. reflexivity. Qed.
